@@ -18,6 +18,8 @@ extra_trusted = []
 
 def corpus():
     out = [{"k": "stream", "cols": 4, "notes": []}, {"k": "stream", "cols": 1, "notes": []}]
+    # a beat whose denominator exceeds a million (a measure of four million rows): too large a text for the extracted model, judged by the oracle alone
+    out.append({"k": "stream", "cols": 1, "notes": [[2, 1000003, 0, "1", 0, None]], "via": "list", "big": True})
     out += [{"k": "stream", "cols": 4, "notes": [], "via": v} for v in VIAS[1:]]                    # an empty stream that is not a sized container
     out += [{"k": "stream", "cols": 4, "notes": [[0, 1, 0, "1", 0, None], [1, 2, 3, "M", 0, None]], "via": v} for v in VIAS[1:]]
     out += [{"k": "corpus", "i": i} for i in range(len(G.corpus_charts()))]
@@ -97,11 +99,15 @@ def impl(c):
 
 
 def requests(c):
+    if c.get("big"):
+        return []
     cols, ns = stream_of(c)
     return [[80, cols, [G.sx_note(o) for o in ns]]]
 
 
 def model(c, ans):
+    if c.get("big"):
+        return SKIP
     a = ans[0]
     assert a[0] == 0
     if a[1] == []:
